@@ -11,3 +11,5 @@ import SigHook.Gen.Orderings
 import SigHook.Props.C05
 import SigHook.Model.Default
 import SigHook.Props.C16
+import SigHook.Model.Origin
+import SigHook.Props.C17
